@@ -55,7 +55,113 @@ def oracle_num(c):
     return None
 
 
+# ------------------------------------------------------------------------------------ one writer, an edited scenario
+EDITS = ["remove_lanelet", "remove_sign", "remove_light", "remove_obstacle", "remove_intersection", "translate"]
+
+
+def gen_rewrite(rng, cases, every=4):
+    """a writer object writes, the scenario is edited through the public API (removals clean the references themselves),
+    the same writer writes again: the second file is a file 'produced by the XML writer' for the edited scenario"""
+    out = []
+    for c in cases[::every]:
+        if c.get("op") != "xml":
+            continue
+        out.append({"op": "rewrite", "seed": c["seed"], "edge": c.get("edge", False), "prec": c.get("prec", 4),
+                    "edits": [[rng.choice(EDITS), rng.randrange(1 << 16)] for _ in range(rng.randint(1, 3))]})
+    return out
+
+
+def apply_edit(sc, kind, pick):
+    import numpy as np
+    net = sc.lanelet_network
+
+    def choose(xs):
+        return xs[pick % len(xs)] if xs else None
+    if kind == "remove_lanelet":
+        # prefer a lanelet that others refer to (successor / predecessor / adjacent): their references have to go too
+        refd = [la for la in net.lanelets if la.predecessor or la.successor or la.adj_left or la.adj_right]
+        la = choose(refd or list(net.lanelets))
+        if la is not None and len(net.lanelets) > 1:
+            sc.remove_lanelet(la)
+    elif kind == "remove_sign":
+        x = choose(list(net.traffic_signs))
+        if x is not None:
+            sc.remove_traffic_sign(x)
+    elif kind == "remove_light":
+        x = choose(list(net.traffic_lights))
+        if x is not None:
+            sc.remove_traffic_light(x)
+    elif kind == "remove_obstacle":
+        x = choose(list(sc.obstacles))
+        if x is not None:
+            sc.remove_obstacle(x)
+    elif kind == "remove_intersection":
+        x = choose(list(net.intersections))
+        if x is not None:
+            sc.remove_intersection(x)
+    elif kind == "translate":
+        sc.translate_rotate(np.array([float(pick % 7) - 3.0, 2.5]), 0.0)
+
+
+def oracle_rewrite(case):
+    import contextlib, io, tempfile, warnings
+    from lxml import etree
+    from commonroad.common.file_writer import CommonRoadFileWriter, OverwriteExistingFile
+    sc, pps, meta = codec_run.build(case)
+    d = tempfile.mkdtemp(prefix="verif-c03-", dir="/var/tmp")
+
+    def writer():
+        return CommonRoadFileWriter(sc, pps, meta["author"], meta["affiliation"], meta["source"], meta["tags"],
+                                    meta["location"], decimal_precision=case["prec"])
+
+    def verdict(path):
+        doc = etree.parse(path)
+        ok = codec_run.schema().validate(doc)
+        errs = [f"{e.path}: {e.message}"[:240] for e in list(codec_run.schema().error_log)[:3]]
+        if ok:
+            try:
+                codec_run.read({"fmt": "xml"}, path)
+            except Exception as e:  # noqa
+                return False, [f"own reader: {type(e).__name__}: {str(e)[:160]}"]
+        return bool(ok), errs
+    try:
+        with contextlib.redirect_stdout(io.StringIO()), warnings.catch_warnings():
+            warnings.simplefilter("ignore")
+            try:
+                w = writer()
+                w.write_to_file(os.path.join(d, "a.xml"), OverwriteExistingFile.ALWAYS)
+                for kind, pick in case["edits"]:
+                    apply_edit(sc, kind, pick)
+            except Exception:  # noqa - first write / the edits themselves are judged elsewhere (C03 plain cases, C09, C10)
+                return None
+            try:
+                writer().write_to_file(os.path.join(d, "fresh.xml"), OverwriteExistingFile.ALWAYS)
+                fresh_ok, _ = verdict(os.path.join(d, "fresh.xml"))
+            except Exception:  # noqa
+                return None
+            if not fresh_ok:
+                return None     # the edited scenario itself is not schema-expressible: outside the quantifier
+            try:
+                w.write_to_file(os.path.join(d, "b.xml"), OverwriteExistingFile.ALWAYS)
+            except Exception as e:  # noqa
+                return ("rewrite:second write raises", f"the second write_to_file of one writer raises {type(e).__name__} "
+                                                      f"after {case['edits']} (seed={case['seed']})")
+            ok, errs = verdict(os.path.join(d, "b.xml"))
+        if not ok:
+            kinds = "+".join(sorted({k for k, _ in case["edits"]}))
+            return (f"rewrite:invalid after {kinds}",
+                    f"a writer that wrote before the scenario was edited ({case['edits']}) writes an invalid file for the "
+                    f"edited scenario, a fresh writer a valid one (seed={case['seed']}): {errs[:1]}")
+        return None
+    finally:
+        for f in os.listdir(d):
+            os.remove(os.path.join(d, f))
+        os.rmdir(d)
+
+
 def oracle(case):
+    if case.get("op") == "rewrite":
+        return oracle_rewrite(case)
     if case.get("op") == "num":
         return oracle_num(case)
     if case.get("op") == "f2s":
@@ -99,7 +205,7 @@ def run(ctx):
 
     def run_oracle(cs):
         for c in cs:
-            if c.get("op") in ("num", "f2s"):
+            if c.get("op") in ("num", "f2s", "rewrite"):
                 ctx.count(c, True, c["op"])
             else:
                 ctx.count(c, True, "xml scenario" + (" (edge magnitudes)" if c.get("edge") else ""))
@@ -107,7 +213,9 @@ def run(ctx):
             if r:
                 ctx.fail(r[0], r[1], c)
 
-    run_oracle(cases + extra)
+    rewrites = gen_rewrite(ctx.rng, cases)
+    run_oracle(cases + extra + rewrites)
+    ctx.coverage["write / edit the scenario / write again with the same writer"] = len(rewrites)
     codec_run.xml_corr(ctx, cases, ctx.n(40, 400), doc_order=True)
     # the Gallina validator vs lxml: written documents + perturbed variants (V), leaf texts (S)
     if os.path.exists(os.path.join(c03_xsd.GEN, "Xsd2020a.v")) and not any("translator" in b["theorem"] for b in ctx.proof_breaks):
